@@ -136,6 +136,18 @@ type hstate struct {
 	w    http.ResponseWriter
 	r    *http.Request
 	woff int
+	got  int64 // request body octets reported by completed Reads (guarded by cr.hmu)
+}
+
+// done records the completion event of a handler command and marks the handler idle in ONE
+// critical section with the quiescence check (which holds cr.hmu): the driver sees either the
+// command still running or its event.
+func (h *hstate) done(e Ev, read int) {
+	h.cr.hmu.Lock()
+	h.cr.hevs = append(h.cr.hevs, e)
+	h.got += int64(read)
+	atomic.StoreInt32(&h.busy, hIdle)
+	h.cr.hmu.Unlock()
 }
 
 func pat(i int) byte { return byte(i % 251) }
@@ -160,11 +172,11 @@ func (theHandler) ServeHTTP(w http.ResponseWriter, r *http.Request) {
 	}
 	sid := uint32(r.State.SerialNumber-1)*2 + 1
 	h := &hstate{cr: cr, s: sid, cmds: make(chan hcmd, 64), w: w, r: r}
+	_, _, hasBody := bfe_http2.VerifH2connBodyState(r.Body)
 	cr.hmu.Lock()
 	cr.handlers[sid] = h
+	cr.hevs = append(cr.hevs, Ev{Ev: "h", S: int(sid), Op: "start", Req: r.Method, ES: !hasBody, CL: r.ContentLength})
 	cr.hmu.Unlock()
-	_, _, hasBody := bfe_http2.VerifH2connBodyState(r.Body)
-	cr.hev(Ev{Ev: "h", S: int(sid), Op: "start", Req: r.Method, ES: !hasBody, CL: r.ContentLength})
 	buf := []byte(nil)
 	for c := range h.cmds {
 		switch c.op {
@@ -180,8 +192,7 @@ func (theHandler) ServeHTTP(w http.ResponseWriter, r *http.Request) {
 			} else if err != nil {
 				res = "err"
 			}
-			cr.hev(Ev{Ev: "h", S: int(sid), Op: "read", N: n, Res: res, Runs: runsOf(buf[:n])})
-			atomic.StoreInt32(&h.busy, hIdle)
+			h.done(Ev{Ev: "h", S: int(sid), Op: "read", N: n, Res: res, Runs: runsOf(buf[:n])}, n)
 		case "write":
 			atomic.StoreInt32(&h.busy, hWrite)
 			data := make([]byte, c.n)
@@ -197,21 +208,18 @@ func (theHandler) ServeHTTP(w http.ResponseWriter, r *http.Request) {
 			if err != nil {
 				res = "err"
 			}
-			cr.hev(Ev{Ev: "h", S: int(sid), Op: "write", N: n, Res: res})
-			atomic.StoreInt32(&h.busy, hIdle)
+			h.done(Ev{Ev: "h", S: int(sid), Op: "write", N: n, Res: res}, 0)
 		case "hdr":
 			atomic.StoreInt32(&h.busy, hWrite)
 			w.WriteHeader(200)
 			if f, ok := w.(http.Flusher); ok {
 				f.Flush()
 			}
-			cr.hev(Ev{Ev: "h", S: int(sid), Op: "hdr", Res: "ok"})
-			atomic.StoreInt32(&h.busy, hIdle)
+			h.done(Ev{Ev: "h", S: int(sid), Op: "hdr", Res: "ok"}, 0)
 		case "closebody":
 			atomic.StoreInt32(&h.busy, hWrite)
 			r.Body.Close()
-			cr.hev(Ev{Ev: "h", S: int(sid), Op: "closebody", Res: "ok"})
-			atomic.StoreInt32(&h.busy, hIdle)
+			h.done(Ev{Ev: "h", S: int(sid), Op: "closebody", Res: "ok"}, 0)
 		case "ret":
 			atomic.StoreInt32(&h.busy, hReturned)
 			cr.hev(Ev{Ev: "h", S: int(sid), Op: "ret", Res: "ok"})
@@ -597,8 +605,11 @@ func (cr *caseRun) quiescentOnce() (q bool, snap bfe_http2.VerifH2connSnap, have
 		switch atomic.LoadInt32(&h.busy) {
 		case hIdle:
 		case hRead:
+			// blocked in Read for good only if the pipe is open and empty AND every octet that
+			// ever left the pipe has been reported by a completed Read (a Read that has
+			// returned but not reported yet looks the same otherwise)
 			bn, bdone, hasBody := bfe_http2.VerifH2connBodyState(h.r.Body)
-			if !hasBody || bn > 0 || bdone {
+			if !hasBody || bn > 0 || bdone || !live || st.BodyBytes-int64(st.BodyLen) != h.got {
 				return false, snap, haveSnap
 			}
 		case hWrite:
